@@ -102,12 +102,31 @@ def guardedCaches : List (String × String) := [
   ("ruleguard.engineState", "typeByFQN"), ("ruleguard.engineState", "pkgCache")
 ]
 
-inductive Cls | guardedCache | perRun | perRunCaptured | other
+/-- the mutexes of the two caches (kept by value in the engine state) and the only library methods that may
+be called on them; whether they are called in the right order on every path is the lock table's business
+(`tableOK`) -/
+def guardMutexes : List (String × String) := [
+  ("ruleguard.engineState", "typeByFQNMu"), ("ruleguard.engineState", "pkgCacheMu")
+]
+
+def lockCalls : List String := [
+  "call (*sync.RWMutex).Lock", "call (*sync.RWMutex).Unlock",
+  "call (*sync.RWMutex).RLock", "call (*sync.RWMutex).RUnlock"
+]
+
+inductive Cls | guardedCache | guardMutex | perRun | perRunCaptured | other
 deriving DecidableEq, Repr
 
+/-- A site whose `how` is `call <method>` is a library method with a pointer receiver called on an object
+kept *by value* in a field / captured variable / package-level variable (a `sync.Map`, a `sync.Once`, an
+atomic value, a buffer …): mutable state like any other, so it falls under the same rules — per-run
+owner or nothing — except for lock operations on the two guard mutexes. -/
 def classify (w : WriteSite) : Cls :=
   match w.kind with
-  | .field => if perRunTypes.contains w.typ then .perRun else .other
+  | .field =>
+    if perRunTypes.contains w.typ then .perRun
+    else if guardMutexes.contains (w.typ, w.field) && lockCalls.contains w.how then .guardMutex
+    else .other
   | .elem =>
     if guardedCaches.contains (w.typ, w.field) then .guardedCache
     else if perRunTypes.contains w.typ then .perRun else .other
